@@ -66,6 +66,18 @@ def gen(rng, tier):
             dfs = [sum(1 for d in docs if d and t in d) for t in ts]
             qs.append(["score", ts, variant, k1, b, f64_bits(idf_of(ndocs, dfs))])
         cases.append({"docs": docs, "tokz": rng.choice(K.TOKZ), "opts": K.gen_opts(rng, len(docs)), "queries": qs})
+    # large corpora in which a term occurs in (almost) every document: idf = ln(1 + 0.5/(N+0.5)) is tiny, and a float32
+    # evaluation of it loses its digits (the statistics must reach the formula in double precision)
+    for N in ({"quick": [300, 2500], "thorough": [300, 1000, 2500, 6000], "search": [300, 2500]}[tier]):
+        docs = [[0] + [rng.randrange(1, 4) for _ in range(rng.randint(0, 2))] for _ in range(N)]
+        miss = rng.sample(range(N), rng.choice([0, 1, 3]))
+        for m in miss:
+            docs[m] = [1]
+        qs = []
+        for ts, variant, k1, b in (([0], "default", 1.2, 0.75), ([0], "param", 2.0, 0.3), ([0], "legacy", 1.2, 0.75), ([0, 1], "param", 1.2, 0.75)):
+            dfs = [sum(1 for d in docs if t in d) for t in ts]
+            qs.append(["score", ts, variant, k1, b, f64_bits(idf_of(N, dfs))])
+        cases.append({"docs": docs, "tokz": "ws", "opts": {}, "queries": qs})
     return cases
 
 
